@@ -89,8 +89,41 @@ def multiword_args():
     return kw
 
 
+def lower_aligned():
+    """do detect_alpha / detect_email / detect_website replace working_string by a
+    length-preserving lower-casing when str.lower() changed the length?
+    (`if len(working_string) != len(section[0]):` assigning working_string)"""
+    found = []
+    for rel, fname in (("lib_trainer/detection_rules/alpha_detection.py", "detect_alpha"),
+                       ("lib_trainer/detection_rules/email_detection.py", "detect_email"),
+                       ("lib_trainer/detection_rules/website_detection.py", "detect_website")):
+        fn = X.find_func(X.parse(rel), fname)
+        # every assignment to working_string, in source order
+        assigns = [n for n in ast.walk(fn) if isinstance(n, ast.Assign) and len(n.targets) == 1
+                   and isinstance(n.targets[0], ast.Name) and n.targets[0].id == "working_string"]
+        ifs = []
+        for n in ast.walk(fn):
+            if isinstance(n, ast.If) and isinstance(n.test, ast.Compare) and len(n.test.ops) == 1 \
+                    and isinstance(n.test.ops[0], ast.NotEq) \
+                    and ast.unparse(n.test.left) == "len(working_string)" \
+                    and ast.unparse(n.test.comparators[0]) == "len(section[0])":
+                if len(n.body) != 1 or n.orelse or n.body[0] not in assigns:
+                    raise X.ExtractError("%s: unexpected body of the length test" % fname)
+                ifs.append(n)
+        plain = [a for a in assigns if ast.unparse(a.value) == "section[0].lower()"]
+        if len(ifs) > 1 or not plain or len(assigns) != len(plain) + len(ifs):
+            raise X.ExtractError("%s: unexpected assignments to working_string" % fname)
+        found.append(len(ifs) == 1)
+    if all(found):
+        return True
+    if not any(found):
+        return False
+    raise X.ExtractError("length-preserving lower-casing present in some detectors only: %r" % found)
+
+
 def extract():
     C = {}
+    C["seg_lower_aligned"] = lower_aligned()
     rows, nkb, mk, fp = keyboards()
     C["kb_rows_flat"] = rows              # 8 rows per layout, layouts in search order
     C["kb_layouts"] = nkb
